@@ -413,9 +413,24 @@ def xlsx_books(world, placement, sheet_orders=None, styled=True,
             others = [x for x in range(len(world['books'])) if x != b]
             if placement['style'] % 2:
                 others.reverse()
+            # sometimes a link to a workbook of another format sits in front
+            # (the library skips it; the numbering of the others must not move)
+            if placement['style'] % 3 == 0:
+                others.insert(placement['style'] % (len(others) + 1), None)
             links = {}
+            n_links = 0
             for x in others:
-                links[x] = len(links) + 1
+                n_links += 1
+                if x is None:
+                    link = ExternalLink(externalBook=ExternalBook(
+                        sheetNames=ExternalSheetNames(sheetName=['Old']),
+                        id='rId1'))
+                    link.file_link = Relationship(
+                        type='externalLinkPath', Target='legacy.xls',
+                        TargetMode='External', Id='rId1')
+                    wb._external_links.append(link)
+                    continue
+                links[x] = n_links
                 link = ExternalLink(externalBook=ExternalBook(
                     sheetNames=ExternalSheetNames(sheetName=[
                         P.sheet(x, q)['name']
